@@ -223,9 +223,19 @@ pub trait Sampler: Send + Sync {
     /// what a format with is_human_readable() == false would write
     fn image_binary(&self) -> Result<Tree, String>;
     fn clone_box(&self) -> Box<dyn Sampler>;
+    /// restore a durable form INTO a clone of this sampler
+    /// (`Deserialize::deserialize_in_place`); None if `d` is not this sampler's D
+    fn restore_into(&self, d: usize, form: &InPlaceForm) -> Option<Result<Box<dyn Sampler>, String>>;
     fn to_json(&self) -> Result<String, String>;
     fn to_json_pretty(&self) -> Result<String, String>;
     fn to_json_value(&self) -> Result<serde_json::Value, String>;
+}
+
+/// a durable form to be restored into an existing sampler
+pub enum InPlaceForm<'a> {
+    Tree(&'a Tree, ReadBehaviour),
+    Json(&'a str),
+    JsonValue(&'a serde_json::Value),
 }
 
 macro_rules! call_sample {
@@ -429,6 +439,29 @@ impl<const D: usize> Sampler for SampleGenerator<D> {
     }
     fn clone_box(&self) -> Box<dyn Sampler> {
         Box::new(self.clone())
+    }
+    fn restore_into(&self, d: usize, form: &InPlaceForm) -> Option<Result<Box<dyn Sampler>, String>> {
+        if d != D {
+            return None;
+        }
+        let r = catch_unwind(AssertUnwindSafe(|| {
+            let mut place: SampleGenerator<D> = self.clone();
+            let r: Result<(), String> = match form {
+                InPlaceForm::Tree(t, b) => store::from_tree_in_place(t, *b, &mut place).map_err(|e| e.to_string()),
+                InPlaceForm::Json(j) => {
+                    let mut de = serde_json::Deserializer::from_str(j);
+                    serde::Deserialize::deserialize_in_place(&mut de, &mut place)
+                        .and_then(|_| de.end())
+                        .map_err(|e| e.to_string())
+                }
+                InPlaceForm::JsonValue(v) => serde::Deserialize::deserialize_in_place(v.clone(), &mut place).map_err(|e| e.to_string()),
+            };
+            r.map(|_| Box::new(place) as Box<dyn Sampler>)
+        }));
+        Some(match r {
+            Ok(x) => x,
+            Err(_) => Err("panic during deserialisation in place".into()),
+        })
     }
     fn to_json(&self) -> Result<String, String> {
         let _ = catch_unwind(AssertUnwindSafe(|| self.get_dimension()));
